@@ -92,12 +92,16 @@ Fixpoint sops (fuel : nat) (maxc : N) (p : sp) (wire later : bytes) (ops : list 
         | SetOk p' => [[6; 1; stream_code (stream p')]; stream_buffer p'] ++ sops f maxc p' wire later rest
         end
       | 6 =>
-        match set_stream p None with
+        (* [6; k; 2]: the plain hand-off of the parser API - no set_stream(None), no skipping: the pending replies are taken, then
+           into_request_parser is asked as the parser stands (stream data still buffered is the callee's business); off a record
+           boundary the conversion is refused and the run ends *)
+        match (if a2 =? 2 then SetOk p else set_stream p None) with
         | SetOk p1 =>
           (* [6; k; 1]: the way Request::close does it — no parse at all when the parser already stands at a record boundary,
              so that whatever is still buffered (unread records of this request included) goes to the next request parser *)
-          match (if (a2 =? 1) && is_record_boundary p1
+          match (if ((a2 =? 1) || (a2 =? 2)) && is_record_boundary p1
                  then Some (consume_output p1 (len (output_buffer p1)), wire, output_buffer p1, 0)   (* close writes the pending replies first *)
+                 else if a2 =? 2 then Some (p1, wire, [], 5)
                  else to_boundary (length wire + 4) maxc p1 wire []) with
           | None => [[18446744073710440504]]
           | Some (p2, wire2, out2, code) =>
